@@ -430,6 +430,23 @@ def run(rep: vk.Report):
                             cases.add(f"(m_T {S.mobj(B)}, {S.res(BT)})", {"op": "T(sweep)", "python": "ok"}, kinds={"T", "sweep"})
                             sweep += 2
                             want = np_values(M0, vals2)[r0:r1, c0:c1]
+                            # the scalar reductions of the block and of its transpose, evaluated, against NumPy on the block's values
+                            reds = [("sum of sub-block", lambda: B.sum(), want.sum()), ("sum of transposed sub-block", lambda: BT.sum(), want.sum()),
+                                    ("frobenius norm of sub-block", lambda: frobenius_norm(B), np.linalg.norm(want, "fro")),
+                                    ("sum of 2*sub-block", lambda: (B * 2).sum(), 2 * want.sum())]
+                            if B.rows == B.cols:
+                                reds.append(("trace of sub-block", lambda: B.trace(), np.trace(want)))
+                            for what, build_, ref_ in reds:
+                                try:
+                                    got_ = float(build_().evaluate(vals2))
+                                except Exception as ex:
+                                    got_ = repr(ex)[:80]
+                                np_checks += 1
+                                if not isinstance(got_, float) or abs(got_ - ref_) > 1e-9 * max(1.0, abs(ref_)):
+                                    np_bad += 1
+                                    rep.violation({"kind": "numpy", "obligation": "built object evaluates to the NumPy operation on the values",
+                                                   "witness": {"op": what, "of": M0.name, "symmetric": bool(base.symmetric), "block": [r0, r1, c0, c1],
+                                                               "got": got_, "numpy": float(ref_)}}, concrete=True)
                             for what, obj, ref in (("sub-block", B, want), ("transpose of sub-block", BT, want.T),
                                                    ("sum of transposed sub-block rows", None, None)):
                                 if obj is None:
